@@ -45,7 +45,7 @@ def sym_char_classes(e, name, specials, exclude=()):
     The union of the classes is exactly the set of scalar values minus `exclude`; the fork is an
     engine branch, so the solver covers every class."""
     n = len(specials)
-    k = e.branch([True] * (n + 1)) if False else None
+    k = None
     t = z3.BitVec(name, 32)
     conds = [t == ord(s) for s in specials]
     other = z3.And([VALID_CHAR(t)] + [t != ord(s) for s in specials] + [t != ord(x) for x in exclude])
